@@ -1082,7 +1082,6 @@ func RunSliceExpr(ctx *Task, expr *ast.SliceExpr) *errchain.PlError {
 			return NewRunError(ctx, errReg.Error(), expr.Step.StartPos())
 		}
 	}
-	var startInt, endInt, stepInt int
 	var length int
 	switch obj.T { //nolint:exhaustive
 	case ast.String:
@@ -1093,9 +1092,9 @@ func RunSliceExpr(ctx *Task, expr *ast.SliceExpr) *errchain.PlError {
 		return NewRunError(ctx, "invalid obj type", expr.Obj.StartPos())
 	}
 
+	stepInt := 1
 	switch step.T {
 	case ast.Invalid:
-		stepInt = 1
 	case ast.Int:
 		stepInt = cast.ToInt(step.V)
 		if stepInt == 0 {
@@ -1103,97 +1102,123 @@ func RunSliceExpr(ctx *Task, expr *ast.SliceExpr) *errchain.PlError {
 		}
 	default:
 		return NewRunError(ctx, "step type must be integer", expr.Step.StartPos())
-
 	}
 
+	var startInt, endInt int
 	switch start.T {
 	case ast.Invalid:
-		if stepInt > 0 {
-			startInt = 0
-		} else {
-			startInt = length - 1
-		}
 	case ast.Int:
 		startInt = cast.ToInt(start.V)
-		if startInt < 0 {
-			startInt = length + startInt
-		}
 	default:
 		return NewRunError(ctx, "start type must be integer", expr.Start.StartPos())
 	}
 
 	switch end.T {
 	case ast.Invalid:
-		if stepInt > 0 {
-			endInt = length
-		} else {
-			endInt = -1
-		}
 	case ast.Int:
 		endInt = cast.ToInt(end.V)
-		if endInt < 0 {
-			endInt = length + endInt
-		}
 	default:
 		return NewRunError(ctx, "end type must be integer", expr.End.StartPos())
-
 	}
+
+	startInt, endInt, stepInt = sliceBounds(length, startInt, endInt, stepInt,
+		start.T != ast.Invalid, end.T != ast.Invalid)
 
 	switch obj.T {
 	case ast.String:
 		str := obj.V.(string)
+		result := make([]byte, 0, sliceCount(startInt, endInt, stepInt))
 		if stepInt > 0 {
-			result := ""
-			if startInt < 0 {
-				startInt = 0
+			for i := startInt; i < endInt; i += stepInt {
+				result = append(result, str[i])
 			}
-			for i := startInt; i < endInt && i < length; i += stepInt {
-				result += string(str[i])
-			}
-			ctx.Regs.ReturnAppend(V{result, ast.String})
-			return nil
 		} else {
-			result := ""
-			if startInt > length-1 {
-				startInt = length - 1
+			for i := startInt; i > endInt; i += stepInt {
+				result = append(result, str[i])
 			}
-			for i := startInt; i > endInt && i >= 0; i += stepInt {
-				result += string(str[i])
-			}
-			ctx.Regs.ReturnAppend(V{result, ast.String})
-			return nil
 		}
+		ctx.Regs.ReturnAppend(V{string(result), ast.String})
+		return nil
 	default:
 		list := obj.V.([]any)
+		result := make([]any, 0, sliceCount(startInt, endInt, stepInt))
 		if stepInt > 0 {
-			if startInt < 0 {
-				startInt = 0
-			}
-			if endInt > length {
-				endInt = length
-			}
-			result := make([]any, 0, (endInt-startInt+stepInt-1)/stepInt)
 			for i := startInt; i < endInt; i += stepInt {
 				result = append(result, list[i])
 			}
-			ctx.Regs.ReturnAppend(V{result, ast.List})
-			return nil
 		} else {
-			if startInt > length-1 {
-				startInt = length - 1
-			}
-			if endInt < 0 {
-				endInt = -1
-			}
-			result := make([]any, 0, (startInt-endInt-stepInt-1)/(-stepInt))
 			for i := startInt; i > endInt; i += stepInt {
 				result = append(result, list[i])
 			}
-			ctx.Regs.ReturnAppend(V{result, ast.List})
-			return nil
 		}
+		ctx.Regs.ReturnAppend(V{result, ast.List})
+		return nil
 	}
 }
+
+// sliceBounds normalizes slice bounds the way Python does: negative bounds
+// count from the end, out-of-range bounds are clamped, omitted bounds select
+// the whole sequence in the direction of step. The step is clamped to
+// +-(length+1), which selects the same elements and keeps i += step from
+// overflowing.
+func sliceBounds(length, start, end, step int, hasStart, hasEnd bool) (int, int, int) {
+	lo, hi := 0, length
+	if step < 0 {
+		lo, hi = -1, length-1
+	}
+	norm := func(v int) int {
+		if v < 0 {
+			v += length
+			if v < lo {
+				v = lo
+			}
+		} else if v > hi {
+			v = hi
+		}
+		return v
+	}
+	if step > length+1 {
+		step = length + 1
+	} else if step < -length-1 {
+		step = -length - 1
+	}
+	if step > 0 {
+		if hasStart {
+			start = norm(start)
+		} else {
+			start = lo
+		}
+		if hasEnd {
+			end = norm(end)
+		} else {
+			end = hi
+		}
+	} else {
+		if hasStart {
+			start = norm(start)
+		} else {
+			start = hi
+		}
+		if hasEnd {
+			end = norm(end)
+		} else {
+			end = lo
+		}
+	}
+	return start, end, step
+}
+
+// sliceCount returns the number of elements selected by normalized bounds.
+func sliceCount(start, end, step int) int {
+	if step > 0 && start < end {
+		return (end-start-1)/step + 1
+	}
+	if step < 0 && start > end {
+		return (start-end-1)/(-step) + 1
+	}
+	return 0
+}
+
 func typePromotion(l ast.DType, r ast.DType) ast.DType {
 	if l == ast.Float || r == ast.Float {
 		return ast.Float
